@@ -719,18 +719,36 @@ def unit_getitem_view(kinds, ninf, timeout_ms=10000):
     kinds: per finite dimension one of  int | npint | slice | list  (values symbolic / opaque).
       all entries integers (Python or numpy)  =>  a BlockSeries of shape (), same n_infinite and dimension names, whose element `orders` is self[item + orders]
       otherwise  =>  a BlockSeries whose shape is the shape numpy gives for np.empty(self.shape)[item], same n_infinite and dimension names, whose element
-                     (v, orders) is entry v of self[item + orders] with masked entries replaced by zero (read through one packed intermediate series, so that
-                     the parent is asked once per order tuple); nothing is evaluated by creating the view."""
+                     (v, orders) is entry v of the array self[item + (o:o+1 for o in orders)] with masked entries replaced by zero and the trailing singleton
+                     axes dropped (read through one packed intermediate series, so that the parent is asked once per order tuple).  The orders MUST be
+                     requested as slices: appended integers would be advanced indices, and numpy moves the broadcast axes of advanced indices that a slice
+                     separates to the front - the array would then not have the shape of np.empty(self.shape)[item] followed by the order axes
+                     (defect repaired in /repo, 4b0825e; the first version of this contract had silently assumed the two shapes coincide).
+                     Nothing is evaluated by creating the view."""
     from contracts.formats import T
     node = frontend.find(MODULE, "BlockSeries.__getitem__")
     all_int = all(k in ("int", "npint") for k in kinds)
     nview = sum(1 for k in kinds if k == "slice") + (1 if any(k == "list" for k in kinds) else 0)   # numpy: slices keep their axis, all lists broadcast to one
 
     class VT(T):
-        METHODS = T.METHODS | {"filled"}
+        METHODS = T.METHODS | {"filled", "reshape"}
 
         def m_getitem(self, eng, key):
             return VT("[]", self, key)
+
+        def m_getattr(self, eng, name):
+            if name == "shape":
+                return VT(".shape", self)
+            r = super().m_getattr(eng, name)
+            if isinstance(r, Builtin) and name in self.METHODS:
+                return Builtin(r.name, lambda e, *a, **kw: VT("." + name, self, *a))
+            return r
+
+    class SliceCls(TypeObj):
+        """the builtin `slice`: a class for isinstance tests and a constructor"""
+        def m_call(self, eng, args, kwargs):
+            a = list(args) + [None] * (3 - len(args))
+            return SSlice(a[0], a[1], a[2]) if len(args) > 1 else SSlice(None, a[0], None)
 
     class NpInt(T):
         def m_isinstance(self, eng, clsname):
@@ -796,7 +814,7 @@ def unit_getitem_view(kinds, ninf, timeout_ms=10000):
                     return Namespace("indexed", {"shape": T("numpy_result_shape", T("of_shape", shp), T("indexed_with", key))})
             return Arr()
         eng.globals.update({"BlockSeries": Builtin("BlockSeries", ctor), "zero": ZERO, "np": Namespace("np", {"empty": Builtin("np.empty", np_empty), "integer": TypeObj("integer")}),
-                            "slice": TypeObj("slice"), "int": TypeObj("int"), "list": TypeObj("list")})
+                            "slice": SliceCls("slice"), "int": TypeObj("int"), "list": TypeObj("list")})
         parent = Parent()
         res = eng.call(Closure(node, Env(None, {}), "__getitem__"), [parent, item], {})
         eng.oblige("creating-a-view-reads-nothing", z3.BoolVal(not reads), detail=repr(reads)[:200])
@@ -834,9 +852,27 @@ def unit_getitem_view(kinds, ninf, timeout_ms=10000):
         eng.oblige("packed-intermediate-is-a-scalar-series-over-the-same-orders",
                    z3.BoolVal(isinstance(pshape, STup) and not pshape.items and pk.get("n_infinite") == ninf), detail=repr(pk.get("shape")))
         pout = eng.call(pk["eval"], list(orders), {})
-        okp = (isinstance(pout, T) and pout.head == ".filled" and isinstance(pout.args[0], T) and pout.args[0].head == "parent[]" and pout.args[1] is ZERO
-               and len(reads) == 1 and same_key(reads[0], item_entries + orders))
-        eng.oblige("packed-element-is-the-parent-array-at-item-plus-orders-with-masked-entries-replaced-by-zero", z3.BoolVal(okp), detail=repr(pout)[:200])
+
+        def unit_slices(key):
+            try:
+                items = eng.as_seq(key).items
+            except Exception:  # noqa: BLE001
+                return False
+            if len(items) != len(item_entries) + ninf or not all(x is y for x, y in zip(items, item_entries)):
+                return False
+            for sl, o in zip(items[len(item_entries):], orders):
+                if not (isinstance(sl, SSlice) and sl.lo is o and sl.step is None and isinstance(sl.hi, SI) and eng.valid(sl.hi.e == o.e + 1)):
+                    return False
+            return True
+        # reshape(filled(parent[item + unit slices], zero), shape-of-that-array[:-ninf])
+        okp = False
+        if isinstance(pout, T) and pout.head == ".reshape" and len(pout.args) == 2:
+            filled, newshape = pout.args
+            arr = filled.args[0] if isinstance(filled, T) and filled.head == ".filled" and len(filled.args) == 2 and filled.args[1] is ZERO else None
+            okshape2 = (isinstance(newshape, T) and newshape.head == "[]" and isinstance(newshape.args[0], T) and newshape.args[0].head == ".shape" and newshape.args[0].args[0] is arr
+                        and isinstance(newshape.args[1], SSlice) and newshape.args[1].lo is None and newshape.args[1].step is None and newshape.args[1].hi == -ninf)
+            okp = isinstance(arr, T) and arr.head == "parent[]" and okshape2 and len(reads) == 1 and unit_slices(reads[0])
+        eng.oblige("packed-element-is-the-parent-array-at-item-plus-unit-slices-of-the-orders-filled-with-zero-without-the-trailing-singleton-axes", z3.BoolVal(okp), detail=repr(pout)[:300] + " read " + repr(reads)[:200])
         vidx = [SI(eng.fresh(f"v{q}")) for q in range(nview)]
         out = eng.call(kw["eval"], vidx + orders, {})
         okv = (isinstance(out, T) and out.head == "[]" and isinstance(out.args[0], T) and out.args[0].head == "made[]" and out.args[0].args[0].head == "made0"
